@@ -1120,6 +1120,7 @@ func (sc *RevScenario) execInBubble(obs *RevObs, altSeed uint32, onlyWorld int, 
 	}
 	nt, ocspClient, rf, validators, pv := inf.nt, inf.ocspClient, inf.rf, inf.validators, inf.pv
 	// cancellation
+	var perCaller map[int]context.CancelFunc // CancelOnXchg: one context per caller (filled before the calls start, read-only afterwards)
 	baseCtx := context.Background()
 	var cancel context.CancelFunc = func() {}
 	switch sc.Cancel {
@@ -1150,16 +1151,34 @@ func (sc *RevScenario) execInBubble(obs *RevObs, altSeed uint32, onlyWorld int, 
 			cands = crls
 		}
 		if len(cands) > 0 {
-			cands[sc.CancelXSel%len(cands)].CancelOnClose = true
+			// the same logical exchange in every caller that performs it; each
+			// caller has its own context, so that one caller's cancellation can
+			// never tie with another caller's (identically timed) exchanges
+			pick := cands[sc.CancelXSel%len(cands)]
+			for _, x := range nt.All() {
+				if x.Serve != nil && x.Kind == pick.Kind && x.CertPos == pick.CertPos && x.SrcIdx == pick.SrcIdx && x.URL == pick.URL && x.Attempt == pick.Attempt {
+					x.CancelOnClose = true
+				}
+			}
 		}
+		perCaller = map[int]context.CancelFunc{}
 		nt.OnClose = func(x *Exchange) {
 			if x.CancelOnClose {
 				x.Rec.CancelledHere = true
-				c()
+				if f := perCaller[x.Rec.CallerID]; f != nil {
+					f()
+				} else {
+					c()
+				}
 			}
 		}
 	}
 	defer cancel()
+	defer func() {
+		for _, f := range perCaller {
+			f()
+		}
+	}()
 
 	var worlds []*World
 	for _, w := range sc.Worlds {
@@ -1181,6 +1200,17 @@ func (sc *RevScenario) execInBubble(obs *RevObs, altSeed uint32, onlyWorld int, 
 	obs.Calls = make([]*CallObs, len(jobs))
 	obs.PanicToken = pv
 	obs.T0 = time.Now()
+	callCtx := map[int]context.Context{}
+	for _, j := range jobs {
+		ck := j.w.callerKeyOf(j.rep)
+		if perCaller != nil && j.w.Entry == EValidateContext {
+			cctx, ccancel := context.WithCancel(baseCtx)
+			perCaller[ck] = ccancel
+			callCtx[ck] = cctx
+		} else {
+			callCtx[ck] = baseCtx
+		}
+	}
 	done := make(chan struct{}, len(jobs))
 	for i, j := range jobs {
 		w, rep := j.w, j.rep
@@ -1197,7 +1227,7 @@ func (sc *RevScenario) execInBubble(obs *RevObs, altSeed uint32, onlyWorld int, 
 			co.TStart = time.Now()
 			switch w.Entry {
 			case EValidateContext:
-				ctx := WithCaller(baseCtx, w.callerKeyOf(rep))
+				ctx := WithCaller(callCtx[w.callerKeyOf(rep)], w.callerKeyOf(rep))
 				co.Results, co.Err = validators[w.purposeForCall()].ValidateContext(ctx, revocation.ValidateContextOptions{CertChain: chain, AuthenticSigningTime: w.stArg()})
 			case EValidate:
 				r, err := revocation.New(ocspClient)
